@@ -54,6 +54,13 @@ def check_member(country: str, bban: str, between=None, via_object=False):
         bad.append(("from_bban-wrong-digits", {**case, "dd": None}, country + ref + bban, val))
     if not ("02" <= ref <= "98"):
         bad.append(("reference-digits-out-of-range", {**case, "dd": None}, "02..98", ref))
+    canon = country + ref + bban
+    for layout in (" " + canon, canon[:2] + " " + canon[2:], "\t" + canon[:3] + "\n" + canon[3:], canon[:1] + " " + canon[1:]):
+        k6, v6 = lib.iban_parse(layout)
+        if k6 != "ok":
+            bad.append(("canonical-pair-rejected-in-another-layout", {**case, "dd": ref, "layout": layout},
+                        "accept", (k6, v6)))
+            break
     if between is not None:
         # right after refused calls: the canonical text and the assembly come FIRST (what a failed
         # call leaves behind is typically consumed by the very next call)
@@ -72,6 +79,11 @@ def check_member(country: str, bban: str, between=None, via_object=False):
         dd = f"{d:02d}"
         k, v = lib.iban_parse(country + dd + bban)
         acc = k == "ok"
+        if via_object and not acc:
+            k5, v5 = lib.iban_parse(country + dd + bban, True)
+            if k5 == "ok":
+                bad.append(("wrong-pair-accepted-when-national-validation-is-requested",
+                            {**case, "dd": dd, "national": True}, "reject", (k5, v5)))
         if via_object:
             # the validating constructor given an IBAN *object* (built with validation off)
             ko, obj = lib.outcome(lib.IBAN, country + dd + bban, allow_invalid=True)
